@@ -221,97 +221,87 @@ def _atoms(e: Any) -> set:
 
 
 def rule_r4(ctx: Ctx) -> None:
+    """the bit reader evaluated through its public interface (bitreader_common) + closure of that interface"""
+    from ..absint import Raised, construct
+    from ..fold import Folder, Unfoldable
+    from . import bitreader_common as BR
+
     repo = ctx.repo
     ctx.rule("C14.R4", "the reader's buffer contents are accessed only where the limit is enforced; the decoder talks to the reader only through members that cannot see past the limit", min_instances=2)
-    from .c07 import bitreader_limit_fields
-
     rd = ctx.cls(SD + "._BitReader")
-    _, limit_fields, _ = bitreader_limit_fields(ctx)
-    pm_cache: Dict[str, Dict[ast.AST, ast.AST]] = {}
+    bad = BR.run_model(ctx)
+    rb = repo.lookup_method(rd, "read_bits")
+    ctx.check(not bad["value"], rd.short + ".read_bits", "reads inside / across / beyond a window, nested windows, all-ones and patterned data (%d steps)" % getattr(ctx, "_bitreader_steps", 0), "every read of the buffer must honour the sub-reader's limit: bits beyond the nested object's window read as zeros, never as the container's bytes", rb.where() if rb else rd.module.relpath, bad["value"][:3])
+    # closure: which members can observe the bytes?  Those outside the modelled interface are probed for leaks
+    modelled = {"__init__", "read_bits", "align_to", "bounded_subreader", "remaining_bits", "bit_offset"}
+    init = repo.lookup_method(rd, "__init__")
+    data_fields = set()
+    if init is not None:
+        first = init.params[1] if len(init.params) > 1 else None
+        for st in ast.walk(init.node):
+            if isinstance(st, (ast.Assign, ast.AnnAssign)) and st.value is not None and first is not None and any(isinstance(x, ast.Name) and x.id == first for x in ast.walk(st.value)):
+                for t in (st.targets if isinstance(st, ast.Assign) else [st.target]):
+                    d = dotted(t) or ""
+                    if d.startswith("self."):
+                        data_fields.add(d.split(".")[1])
+    if not data_fields:
+        raise AnalysisError("_BitReader.__init__: the field that holds the buffer was not found")
 
-    def content_uses(m: FuncInfo) -> List[ast.AST]:
-        """uses of self._data that can observe the bytes (not: the store in __init__, len(), handing the buffer to a sub-reader)"""
-        from ..core import parents_map
-
-        pm = pm_cache.setdefault(m.qualname, parents_map(m.node))
-        out = []
+    def observes(m: FuncInfo) -> bool:
         for n in ast.walk(m.node):
-            if isinstance(n, ast.Attribute) and n.attr == "_data" and norm(n.value) == "self":
-                par = pm.get(n)
-                if isinstance(n.ctx, ast.Store):
-                    continue
-                if isinstance(par, ast.Call) and dotted(par.func) == "len":
-                    continue
-                if isinstance(par, ast.Call) and isinstance(repo.resolve_expr(m.module, par.func, m.cls), ClassInfo) and repo.resolve_expr(m.module, par.func, m.cls).name == "_BitReader":  # type: ignore
-                    continue
-                out.append(n)
-        return out
+            if isinstance(n, ast.Subscript) and isinstance(n.value, ast.Attribute) and n.value.attr in data_fields and norm(n.value.value) == "self":
+                return True
+            if isinstance(n, ast.Call) and any(isinstance(a, ast.Attribute) and a.attr in data_fields and norm(a.value) == "self" for a in n.args) and (dotted(n.func) or "") not in ("len",) and not (isinstance(repo.resolve_expr(m.module, n.func, m.cls) if isinstance(n.func, (ast.Name, ast.Attribute)) else None, ClassInfo)):
+                return True
+        return False
 
-    touching = {name: content_uses(m) for name, m in rd.methods.items()}
-    touching = {k: v for k, v in touching.items() if v}
-    # private helpers called only from read_bits (or from such helpers) are part of read_bits: their reads are judged in the
-    # expanded body of read_bits below
-    def callers_of(name: str) -> Set[str]:
-        out = set()
-        for n2, m2 in rd.methods.items():
-            for c in calls_in(m2.node, include_nested=True):
-                if isinstance(c.func, ast.Attribute) and c.func.attr == name and norm(c.func.value) == "self":
-                    out.add(n2)
+    def external_callers(name: str) -> List[str]:
+        out = []
         for fn2 in repo.all_functions().values():
-            if fn2.cls is not rd and any(isinstance(c.func, ast.Attribute) and c.func.attr == name for c in calls_in(fn2.node, include_nested=True)):
-                out.add(fn2.short)
+            if fn2.cls is rd or fn2.name.startswith("_unittest"):
+                continue
+            if any(isinstance(c.func, ast.Attribute) and c.func.attr == name for c in calls_in(fn2.node, include_nested=True)) or any(isinstance(n, ast.Attribute) and n.attr == name and not isinstance(n.ctx, ast.Store) for n in ast.walk(fn2.node)):
+                out.append(fn2.short)
         return out
 
-    part_of_read_bits: Set[str] = set()
-    changed = True
-    while changed:
-        changed = False
-        for name in list(touching):
-            if name == "read_bits" or name in part_of_read_bits or not name.startswith("_") or name.startswith("__"):
-                continue
-            cs = callers_of(name)
-            if cs and cs <= ({"read_bits"} | part_of_read_bits):
-                part_of_read_bits.add(name)
-                changed = True
-    for name in part_of_read_bits:
-        touching.pop(name, None)
-    rb_inl = ctx.inl(rd.methods["read_bits"], keep=("read_bits",)) if "read_bits" in rd.methods else None
-    if rb_inl is None or not any(isinstance(n, ast.Attribute) and n.attr == "_data" for n in ast.walk(rb_inl)):
-        raise AnalysisError("_BitReader.read_bits no longer reads the buffer: the anchor of C14.R4 / C07.R3 moved")
-    touching["read_bits"] = [n for n in ast.walk(rb_inl) if isinstance(n, ast.Attribute) and n.attr == "_data" and norm(n.value) == "self"]
-    for name, uses in sorted(touching.items()):
-        m = rd.methods[name]
-        if name == "read_bits":
+    leaks, opaque = [], []
+    observers = sorted(n for n, m in rd.methods.items() if observes(m))
+    for name in observers:
+        if name in modelled:
             continue
-        mentions_limit = any(isinstance(n, ast.Attribute) and norm(n) in limit_fields for n in ast.walk(m.node))
-        if mentions_limit:
-            raise AnalysisError("_BitReader.%s reads the buffer and consults the limit: its limit arithmetic is outside what C07.R3 / C14.R4 verify (only read_bits is modelled)" % name)
-        ctx.check(False, m.short, "reads self._data without consulting %s" % sorted(limit_fields), "every read of the buffer must honour the sub-reader's limit: bits beyond the nested object's window read as zeros, never as the container's bytes", m.where(uses[0]))
-    ctx.check(True, rd.short, "buffer contents read in %s" % sorted(touching), "scan completed", rd.module.relpath, nontrivial=False)
-    # in read_bits the limit check precedes any buffer access
-    rb = rd.methods["read_bits"]
-    first_data = min((n.lineno for n in touching["read_bits"]), default=10**9)
-    limit_if = [st for st in body_without_docstring(rb_inl) if isinstance(st, ast.If) and isinstance(st.test, ast.Compare) and isinstance(st.test.ops[0], ast.IsNot) and norm(st.test.left) in limit_fields and norm(st.test.comparators[0]) == "None"]
-    ctx.check(len(limit_if) == 1 and limit_if[0].lineno < first_data, rb.short, "limit handled before the buffer is touched", "out-of-limit reads yield zeros instead of the container's bytes", rb.where())
-    # the decoder's view of the reader
+        m = rd.methods[name]
+        reachable_outside = not name.startswith("_") or bool(external_callers(name))
+        if not reachable_outside:
+            continue  # a private step of the modelled members: its reads are what the model observes
+        # probe: a window of 8 bits over all-ones data; anything the member returns beyond those 8 bits must be zero
+        try:
+            top = construct(ctx, rd, b"\xff\xff\xff\xff", hook=None)
+            f = Folder({"r": top}, repo, rd.module, rd, None)
+            f.env["s"] = f.fold(ast.parse("r.bounded_subreader(8)", mode="eval").body)
+            nparams = len(m.params) - 1
+            got = f.fold(ast.parse("s.%s(%s)" % (name, ", ".join(["3"] * nparams)), mode="eval").body) if not m.is_property else f.fold(ast.parse("s." + name, mode="eval").body)
+        except (Raised, Unfoldable) as ex:
+            opaque.append("%s (%s)" % (name, ex))
+            continue
+        ctx.count()
+        leaked = (isinstance(got, (bytes, bytearray)) and any(b for b in bytes(got)[1:])) or (isinstance(got, int) and not isinstance(got, bool) and got >= 256) or (isinstance(got, (list, tuple)) and any(bool(x) for x in list(got)[8:]))
+        if leaked:
+            leaks.append({"member": name, "on a window of 8 bits over all-ones data it returns": repr(got)[:60]})
+        elif not isinstance(got, (bytes, bytearray, int, list, tuple, type(None))):
+            opaque.append("%s (returns %s)" % (name, type(got).__name__))
+    if opaque and not leaks:
+        raise AnalysisError("_BitReader: members that can observe the buffer and are outside the modelled interface could not be probed: %s" % opaque)
+    ctx.check(not leaks, rd.short, "members that observe the buffer: %s" % observers, "every member that hands out buffer contents honours the window", rd.module.relpath, leaks)
+    # the decoder uses the reader through its members only (no access to its private state)
     used: Dict[str, Set[str]] = {}
     for fn in repo.all_functions().values():
         if fn.module.name != "pydsdl._serdes" or fn.cls is not None:
             continue
         for n in ast.walk(fn.node):
-            if isinstance(n, ast.Attribute) and isinstance(n.value, ast.Name) and n.value.id in ("reader", "sub_reader"):
+            if isinstance(n, ast.Attribute) and isinstance(n.value, ast.Name) and n.value.id in ("reader", "sub_reader", "subreader"):
                 used.setdefault(fn.short, set()).add(n.attr)
-    bad: Dict[str, List[str]] = {}
-    for f, attrs in used.items():
-        for a in sorted(attrs):
-            if a in rd.methods:
-                if a in touching and a != "read_bits":
-                    bad.setdefault(f, []).append(a)
-            elif a.startswith("_"):
-                bad.setdefault(f, []).append(a)  # the reader's private state
-            else:
-                raise AnalysisError("%s uses reader.%s, which is not a member of _BitReader" % (f, a))
-    ctx.check(not bad and bool(used), "_serdes (decoder functions)", "reader interface used: %s" % sorted(set().union(*used.values())) if used else "?", "decoding must not bypass the limit-aware primitives", "pydsdl/_serdes.py", bad)
+    private = {f: sorted(a for a in attrs if a.startswith("_")) for f, attrs in used.items() if any(a.startswith("_") for a in attrs)}
+    ctx.check(not private and bool(used), "_serdes (decoder functions)", "reader interface used: %s" % sorted(set().union(*used.values())) if used else "?", "decoding must not bypass the limit-aware primitives", "pydsdl/_serdes.py", private)
 
 
 def rule_r5(ctx: Ctx) -> None:
